@@ -270,6 +270,17 @@ theorem wf_addFace (k : Kernel) (hes : List Nat) (chk : Bool) (hh : ∀ h ∈ he
 
 /-! ### add_face(vertices) -/
 
+/-- what the cache-guided duplicate search returns (cc:124-140, since 8c92632 the smallest matching edge) is the
+    edge of a halfedge in the vertex's list that ends at the requested vertex -/
+theorem findEdgeBU_some {k : Kernel} {a b e : Nat} (h : k.findEdgeBU a b = some e) :
+    ∃ x, x ∈ k.outOf a ∧ k.toV x = b ∧ eOf x = e := by
+  unfold findEdgeBU at h
+  have hm := List.min?_mem h
+  rw [List.mem_map] at hm
+  obtain ⟨x, hx, rfl⟩ := hm
+  rw [List.mem_filter] at hx
+  exact ⟨x, hx.1, by simpa using hx.2, rfl⟩
+
 /-- the edge `add_edge` returns exists afterwards (found through the vertex cache, found by the
     linear scan, or just created) -/
 theorem addEdge_result_lt (k : Kernel) (a b : Nat) (d : Bool) (h : WF k) (ha : a < k.nV) :
@@ -283,10 +294,7 @@ theorem addEdge_result_lt (k : Kernel) (a b : Nat) (d : Bool) (h : WF k) (ha : a
     · cases he
     · split at he
       · rename_i hv
-        unfold findEdgeBU at he
-        rw [Option.map_eq_some_iff] at he
-        obtain ⟨x, hx, rfl⟩ := he
-        have hm := List.mem_of_find?_eq_some hx
+        obtain ⟨x, hm, _, rfl⟩ := findEdgeBU_some he
         have := ((h.cache.v hv).2 a ha).mem_iff.mp hm
         unfold sOut liveHes at this
         simp only [List.mem_filter, List.mem_range] at this
